@@ -69,7 +69,7 @@ def instrument(scratch):
             if not os.path.exists(target):
                 raise Undecided(f'anchor lost: {crate_dir}/src/{fn} does not exist')
             with open(target, 'a') as f:
-                f.write(f'\n#[cfg(kani)] #[path = "{os.path.join(dst_c, fn)}"] mod verif_contracts;\n')
+                f.write(f'\n#[cfg(kani)] #[path = "{os.path.join(dst_c, fn)}"] pub(crate) mod verif_contracts;\n')
     # core/Cargo.toml: logging off (drops only log side effects), replay feature for cover-free runs
     ct = os.path.join(scratch, 'core', 'Cargo.toml')
     txt = open(ct).read()
@@ -77,14 +77,14 @@ def instrument(scratch):
                      'log = { version = "0.4", default-features = false, features = ["max_level_off"] }', txt)
     if n != 1:
         raise Undecided('anchor lost: log dependency line in core/Cargo.toml')
-    new, n = re.subn(r'(?m)^\[features\]$', '[features]\nverif_replay = []', new)
+    new, n = re.subn(r'(?m)^\[features\]$', '[features]\nverif_replay = []\nverif_nocover = []\nverif_nt2 = []\nverif_partial = []', new)
     if n != 1:
         raise Undecided('anchor lost: [features] in core/Cargo.toml')
     open(ct, 'w').write(new)
     dropped.append('log macros compiled out (log/max_level_off): trace!/debug!/info!/warn!/error! argument evaluation')
     et = os.path.join(scratch, 'eval', 'Cargo.toml')
     txt = open(et).read()
-    new, n = re.subn(r'(?m)^\[features\]$', '[features]\nverif_replay = ["llfree/verif_replay"]', txt)
+    new, n = re.subn(r'(?m)^\[features\]$', '[features]\nverif_replay = ["llfree/verif_replay"]\nverif_nocover = ["llfree/verif_nocover"]', txt)
     if n == 1:
         open(et, 'w').write(new)
     # workspace profile: keep as is. Offline config.
@@ -107,10 +107,12 @@ def qualified(ob):
     return ('verif_contracts::' if mod == 'lib' else f'{mod}::verif_contracts::') + ob['harness']
 
 
-def kani_cmd(pkg, features, harnesses, tier, jobs, out_json, timeout, extra=()):
+def kani_cmd(pkg, features, harnesses, tier, jobs, out_json, timeout, extra=(), target_dir=None):
     cmd = ['cargo', 'kani', '-p', pkg, '-Z', 'unstable-options', '-Z', 'function-contracts', '-Z', 'stubbing',
            '--output-format', 'terse', '--exact', '--export-json', out_json,
            '--harness-timeout', f'{int(timeout)}s', '-j', str(jobs)]
+    if target_dir:
+        cmd += ['--target-dir', target_dir]
     if features:
         cmd += ['--features', ','.join(features)]
     if tier == 'quick':
@@ -127,7 +129,8 @@ def run_group(scratch, pkg, features, obs, tier, jobs):
     if os.path.exists(out_json):
         os.remove(out_json)
     timeout = max(o['timeout'] for o in obs) * (3 if tier == 'thorough' else 1)
-    cmd = kani_cmd(pkg, features, [qualified(o) for o in obs], tier, jobs, out_json, timeout)
+    tdir = os.path.join(scratch, 'target-' + pkg + '-' + ('-'.join(features) or 'default'))
+    cmd = kani_cmd(pkg, features, [qualified(o) for o in obs], tier, jobs, out_json, timeout, target_dir=tdir)
     t0 = time.time()
     log(f'[kani] {pkg} features={list(features)} harnesses={len(obs)} jobs={jobs}')
     p = subprocess.run(cmd, cwd=scratch, env=KANI_ENV, stdout=subprocess.PIPE, stderr=subprocess.STDOUT, text=True)
@@ -155,7 +158,7 @@ def run_group(scratch, pkg, features, obs, tier, jobs):
             if f.startswith(scratch):
                 loc['file'] = f[len(scratch):].lstrip('/').replace('verif_contracts/', '/verif/contracts/')
     by_id = {r['harness_id']: r for r in data['verification_results']['results']}
-    stats = {c['harness_id']: c.get('cbmc_stats', {}) for c in data.get('cbmc', [])}
+    stats = {c['harness_id']: (c.get('cbmc_stats') or {}) for c in data.get('cbmc', [])}
     errs = {e['harness_id']: e for e in data.get('error_details', [])}
     for o in obs:
         q = qualified(o)
@@ -350,12 +353,20 @@ def cmd_check(prop, tier, repo, seed):
         dropped = instrument(scratch)
         groups = {}
         for o in all_obs:
-            groups.setdefault((o['pkg'], tuple(o['features'])), []).append(o)
-        for (pkg, feats), obs in groups.items():
-            jobs = min(len(obs), min(o.get('jobs', 16) for o in obs), int(os.environ.get('VERIF_JOBS', '16')))
-            res, wall, cmd = run_group(scratch, pkg, feats, obs, tier, max(1, jobs))
-            results.update(res)
-            cmds.append(' '.join(cmd[:12]) + ' ... (%d harnesses, %.0fs)' % (len(obs), wall))
+            feats = tuple(o['features']) + (() if o.get('cover', True) else ('verif_nocover',))
+            groups.setdefault((o['pkg'], feats), []).append(o)
+        total_jobs = int(os.environ.get('VERIF_JOBS', '16'))
+        n_all = sum(len(v) for v in groups.values())
+        from concurrent.futures import ThreadPoolExecutor
+        def _run(item):
+            (pkg, feats), obs = item
+            share = max(1, round(total_jobs * len(obs) / n_all))
+            jobs = min(len(obs), min(o.get('jobs', 16) for o in obs), share if len(groups) > 1 else total_jobs)
+            return run_group(scratch, pkg, feats, obs, tier, max(1, jobs))
+        with ThreadPoolExecutor(max_workers=max(1, len(groups))) as ex:
+            for (res, wall, cmd), ((pkg, feats), obs) in zip(ex.map(_run, list(groups.items())), list(groups.items())):
+                results.update(res)
+                cmds.append(' '.join(cmd[:12]) + ' ... (%d harnesses, %.0fs)' % (len(obs), wall))
         # verdicts
         for o in all_obs:
             r = results[o['name']]
